@@ -15,6 +15,16 @@ int vf_sleep(int* a, int ntree, const int* tree, int n, double* qvel, double* qa
   VF_TRY({ mj_sleepTrees(&m, &d, tree, n); });
   return vf_error_flag ? -99 : 0;
 }
+// out: tree_awake[ntree], body_awake[nbody], body_awake_ind[nbody], parent_awake_ind[nbody], dof_awake_ind[nv], counts[4]
+int vf_update(int ntree, int nbody, int nv, int* treeid, int* parentid, int* rootid, int* mocapid, int* dofbody, int* asleep, int flg,
+              int* tree_awake, int* body_awake, int* bai, int* pai, int* dai, int* counts) {
+  mjModel m; mjData d; memset(&m, 0, sizeof m); memset(&d, 0, sizeof d);
+  m.ntree = ntree; m.nbody = nbody; m.nv = nv; m.body_treeid = treeid; m.body_parentid = parentid; m.body_rootid = rootid; m.body_mocapid = mocapid; m.dof_bodyid = dofbody;
+  d.tree_asleep = asleep; d.tree_awake = tree_awake; d.body_awake = body_awake; d.body_awake_ind = bai; d.parent_awake_ind = pai; d.dof_awake_ind = dai;
+  VF_TRY({ mj_updateSleepInit(&m, &d, flg); });
+  counts[0] = d.ntree_awake; counts[1] = d.nbody_awake; counts[2] = d.nparent_awake; counts[3] = d.nv_awake;
+  return vf_error_flag ? -99 : 0;
+}
 """
 
 
@@ -84,6 +94,41 @@ def native_contract_run(open_obligations=()):
                     return {'reproduced': True, 'name': 'mj_sleepTrees', 'input': {'tree_asleep': a, 'list': lst},
                             'observed': {'rc': rr, 'tree_asleep': list(arr2)}, 'expected': exp2,
                             'violated_clause': 'the listed trees form one new cycle in list order, their dofs are zeroed, nothing else changes'}
+        # mj_updateSleepInit on random small forests: the derived arrays against the documented predicates (also the
+        # completeness of the index lists, which the proof leaves out)
+        for trial in range(1500):
+            ntree, nbody = rnd.randint(0, 4), rnd.randint(1, 7)
+            treeid, parentid, rootid, mocapid = [-1], [0], [0], [-1]
+            for b in range(1, nbody):
+                par = rnd.randrange(b)
+                parentid.append(par)
+                if treeid[par] >= 0:
+                    treeid.append(treeid[par]); rootid.append(rootid[par]); mocapid.append(-1)
+                else:
+                    t = rnd.randrange(ntree) if ntree and rnd.random() < 0.6 else -1
+                    treeid.append(t)
+                    rootid.append(b if par == 0 else rootid[par])
+                    mocapid.append(rnd.choice([-1, 0]) if (par == 0 and t < 0) else -1)
+            dofbody = [b for b in range(nbody) if treeid[b] >= 0 for _ in range(rnd.randint(0, 2))]
+            nv = len(dofbody)
+            asleep = [rnd.choice([-1, -4, 0]) for _ in range(ntree)]
+            flg = rnd.randint(0, 1)
+            I = lambda xs, n=None: (ctypes.c_int * max(1, n if n is not None else len(xs)))(*xs)
+            ta, ba, bai, pai, dai, cnt = I([], ntree), I([], nbody), I([], nbody), I([], nbody), I([], nv), I([], 4)
+            rc = lib.vf_update(ntree, nbody, nv, I(treeid), I(parentid), I(rootid), I(mocapid), I(dofbody), I(asleep), flg, ta, ba, bai, pai, dai, cnt)
+            runs += 1
+            w_ta = [1 if asleep[t] < 0 else 0 for t in range(ntree)]
+            w_ba = [(1 if (mocapid[rootid[b]] >= 0 or flg) else -1) if treeid[b] < 0 else (1 if w_ta[treeid[b]] else 0) for b in range(nbody)]
+            w_bai = [b for b in range(nbody) if w_ba[b] != 0]
+            w_pai = [b for b in range(1, nbody) if w_ba[parentid[b]] != 0]
+            w_dai = [j for j in range(nv) if treeid[dofbody[j]] >= 0 and w_ba[dofbody[j]] == 1]
+            got = {'tree_awake': list(ta)[:ntree], 'body_awake': list(ba)[:nbody], 'body_awake_ind': list(bai)[:cnt[1]] if 0 <= cnt[1] <= nbody else None,
+                   'parent_awake_ind': list(pai)[:cnt[2]] if 0 <= cnt[2] <= nbody else None, 'dof_awake_ind': list(dai)[:cnt[3]] if 0 <= cnt[3] <= nv else None, 'ntree_awake': cnt[0]}
+            want = {'tree_awake': w_ta, 'body_awake': w_ba, 'body_awake_ind': w_bai, 'parent_awake_ind': w_pai, 'dof_awake_ind': w_dai, 'ntree_awake': sum(w_ta)}
+            if rc != 0 or got != want:
+                return {'reproduced': True, 'name': 'mj_updateSleepInit', 'input': {'body_treeid': treeid, 'body_parentid': parentid, 'body_rootid': rootid, 'body_mocapid': mocapid,
+                                                                                   'dof_bodyid': dofbody, 'tree_asleep': asleep, 'flg_staticawake': flg},
+                        'observed': got, 'expected': want, 'violated_clause': 'derived sleep arrays are what the documented predicates select (mocap-rooted dof-less bodies awake)'}
         return {'reproduced': False, 'cases_run': runs}
     finally:
         native.cleanup(d)
@@ -107,12 +152,15 @@ def main():
     chk.unit('src/engine/engine_util_misc.c', 'mju_fillInt', {'mju_fillInt': sleep.FILL_INT}, 'math', 'opaque')
     for fn in ('mj_wake', 'mj_wakeCollision', 'mj_wakeTendon', 'mj_wakeEquality'):
         chk.unit(F, fn, W, 'math', 'fp', extra_flags=FLAGS)
+    # the sleep filter of the collision driver (explicit pairs between two bodies that are not awake are dropped): contract shared with C14
+    from contracts import filters
+    chk.unit('src/engine/engine_collision_driver.c', 'filterCollisionPair', filters.pair_contracts(), 'math', 'real', prefix='[collision]', check_arith=False)
     import time
     from vlib.report import run_isolated
     t0 = time.time()
     r = run_isolated(lambda n, m, o: native_contract_run([]), '', None, None, timeout=600, crash_is_failure=True)
-    chk.bounded.append({'what': 'real compiled mj_sleepCycle / mj_wakeIsland / mj_sleepTrees vs a direct model of the cycle structure',
-                        'bound': '3000 seeded random forests of <= 9 trees with random disjoint cycles of length <= 4', 'result': r,
+    chk.bounded.append({'what': 'real compiled mj_sleepCycle / mj_wakeIsland / mj_sleepTrees vs a direct model of the cycle structure; mj_updateSleepInit vs the documented predicates (incl. completeness of the index lists)',
+                        'bound': '3000 seeded random forests of <= 9 trees with random disjoint cycles of length <= 4; mj_updateSleepInit: 1500 seeded random models of <= 7 bodies, <= 4 trees', 'result': r,
                         'wall_s': round(time.time() - t0, 1), 'counted_as_proved': False})
     if r and r.get('reproduced'):
         chk.native_fallback = None
@@ -129,7 +177,7 @@ def main():
         'a file-local static scalar that the translation unit only reads (kAwake) keeps its initialiser: established by a syntactic scan of every function of the unit (vlib/cast.py)',
     }
     chk.out_of_reach += ['"sleeping trees keep bit-identical qpos across steps" and "enabling sleep changes no result while no tree is asleep": whole-pipeline relational claims',
-                         'mj_sleep (which islands are put to sleep) and the sleep filter of the collision driver: not under contract',
+                         'mj_sleep (which islands are put to sleep) and the body-pair sleep filter of the broad phase (filterBodyPair is under contract in C14; its call sites are not): not under contract',
                          'wake sweeps: that two sleeping trees joined by a newly active equality wake when in different cycles, and that the sweeps wake nothing else than listed, are not stated (weak view of mj_wakeIsland: no cycle description)',
                          'completeness of the index lists of mj_updateSleepInit (every selected body / dof appears): needs an existential witness per element; soundness, order and bounds are proved',
                          'mj_sleepCycle returning the MINIMUM of the cycle (proved: a member of the cycle not above i; the bounded stand-in checks the minimum)']
